@@ -24,6 +24,8 @@ CONSTANTS NKeys,        \* keys 1..NKeys, group of k = (k + 1) \div 2
           EnvOps,       \* subset of {"rotate","flush","compactL0","gc","reopen"}
           Drops,        \* subset of {"dropAll","dropPrefix"}
           DropAt,       \* 0: drops anywhere (at most one of each); n: operation n is a drop
+          MultiAt,      \* 0: never; n: operation n is a "multi": MultiN transactions committed by
+          MultiN,       \*    concurrent committers, so that the writer handles them in one batch
           Races,        \* subset of {"raceAll","racePrefix"}: a drop racing with one transaction (last operation)
           MaxEnv,       \* bound on environment operations per workload
           MaxRow,       \* at most this many commits in a row (shaping)
@@ -43,7 +45,7 @@ Lay0 == [mem |-> {}, imm |-> 0, l0 |-> 0, l1 |-> 0, vfiles |-> 1, vn |-> 0, nenv
 Init == /\ hist = <<>> /\ sync \in SyncModes /\ vis = Empty /\ ncommit = 0 /\ lay = Lay0
 
 Room == Len(hist) < (IF Races = {} THEN HistLen ELSE HistLen - 1)
-MustDrop == DropAt # 0 /\ Len(hist) + 1 = DropAt
+MustDrop == (DropAt # 0 /\ Len(hist) + 1 = DropAt) \/ (MultiAt # 0 /\ Len(hist) + 1 = MultiAt)
 H(rec) == hist' = Append(hist, rec)
 
 RECURSIVE SeqOfSet(_)
@@ -125,7 +127,28 @@ Race(d, g, ks, style) ==
           /\ ncommit' = u
     /\ UNCHANGED <<sync, lay>>
 
+\* MultiN transactions issued by concurrent committers (enqueued in this order while the writer is
+\* busy, then written as ONE batch by writeRequests). vis = after all of them; pre[i] = after the
+\* first i: the states allowed while the operation is in flight.
+RECURSIVE MultiVis(_, _, _, _)
+MultiVis(v, ks, style, i) ==
+    IF i > MultiN THEN <<>>
+    ELSE LET op == [t |-> "commit", ks |-> ks, dels |-> {}, u |-> ncommit + i]
+         IN <<ApplyOp(v, op)>> \o MultiVis(ApplyOp(v, op), ks, style, i + 1)
+Multi(ks, style) ==
+    /\ Room /\ MultiAt # 0 /\ Len(hist) + 1 = MultiAt /\ ks \in KeySets /\ style \in Styles \ {4}
+    /\ LET sk == SeqOfSet(ks)
+           txs == [i \in 1..MultiN |-> [j \in 1..Len(sk) |->
+                     [k |-> sk[j], v |-> ncommit + i, big |-> IsBig(style, sk[j]), del |-> FALSE]]]
+           pre == MultiVis(vis, ks, style, 1)
+       IN /\ H([op |-> "multi", w |-> <<>>, txs |-> txs, g |-> 0, vis |-> pre[MultiN], pre |-> pre])
+          /\ vis' = pre[MultiN]
+          /\ ncommit' = ncommit + MultiN
+          /\ lay' = [lay EXCEPT !.mem = @ \cup ks]
+    /\ UNCHANGED sync
+
 Next ==
+    \/ \E ks \in KeySets, style \in Styles : Multi(ks, style)
     \/ \E d \in Races, g \in 0..((NKeys + 1) \div 2), ks \in KeySets, style \in Styles : Race(d, g, ks, style)
     \/ \E api \in {"commit", "batch"}, ks \in KeySets, style \in Styles :
           Commit(api, ks, style)
